@@ -105,6 +105,7 @@ type State struct {
 	ghostlog      map[string]bool
 	doneChans     map[int]*ChanV
 	blocking      int
+	rvStore       map[int]map[string]*Term
 }
 
 func (s *State) freshName(base string) string {
@@ -219,6 +220,9 @@ func (s *State) contents(o *Obj) Value {
 
 // zeroValue of a type.
 func (s *State) zeroValue(t types.Type) Value {
+	if isOpaqueStruct(t) == "time.Time" {
+		return &OpaqueV{Kind: "time.Time", T: App("time_zero", USort("Time"))}
+	}
 	if so, ok := sortOf(t); ok {
 		if so.Kind == KBool {
 			return False
@@ -375,6 +379,10 @@ func (s *State) symValue(t types.Type, name string) Value {
 				p.Nil = False
 			}
 			return v
+		}
+		if it, ok := t.Underlying().(*types.Interface); ok && it.NumMethods() > 0 && s.eng.closedWorld(t) == nil {
+			// a non-nil value of interface type I has a dynamic type that implements I
+			s.assume(Or(Eq(iv.Type, Const(32, 0)), App("implements_"+shortType(t), BoolSort, iv.Type)))
 		}
 		if cw := s.eng.closedWorld(t); cw != nil {
 			// closed world (the interface has unexported methods): case split on the dynamic type right away
